@@ -169,6 +169,13 @@ def rule_e(repo, chk):
             for d in ast.walk(f):
                 if isinstance(d, ast.FunctionDef) and d.name == key.id and isinstance(d.body[-1], ast.Return):
                     body, arg = d.body[-1].value, d.args.args[0].arg
+        if body is None and isinstance(key, ast.Attribute) and norm(key.value) == 'self':
+            # a method of the same class as key function: its single return expression, the parameter after self
+            ci = repo.cls(COMP, 'Completion')
+            d = repo.find_method(ci, key.attr)
+            eb = effective_body(d) if d is not None else []
+            if len(eb) == 1 and isinstance(eb[0], ast.Return) and len(d.args.args) == 2:
+                body, arg = eb[0].value, d.args.args[1].arg
         elts = [norm(e) for e in body.elts] if isinstance(body, ast.Tuple) else None
         want = ['not %s.name.startswith(self._like_name)' % arg, "%s.name.startswith('__')" % arg, "%s.name.startswith('_')" % arg, '%s.name.lower()' % arg]
         chk.ob('C04.e', elts == want, c, 'sort key = (not startswith(fragment), startswith("__"), startswith("_"), name.lower())', 'key: %s' % elts)
